@@ -281,6 +281,21 @@ func (w *World) recoverRenamed() {
 				}
 			}
 		}
+		if len(cands) == 0 && strings.HasPrefix(frozenSigs[old], "(") {
+			// a plain function moved to another package (e.g. from the keeper into the types package): the unique NEW plain
+			// function of the repository with exactly the same parameter and result types
+			for k, fn := range w.Funcs {
+				if fn.Parent() != nil || len(fn.Blocks) == 0 || frozenExported[k] || fn.Signature.Recv() != nil {
+					continue
+				}
+				if _, isAnchor := frozenSigs[k]; isAnchor {
+					continue
+				}
+				if sigFingerprint(fn) == frozenSigs[old] {
+					cands = append(cands, k)
+				}
+			}
+		}
 		if len(cands) != 1 {
 			continue
 		}
